@@ -68,6 +68,8 @@ class Result:
         self.machinery_errors = []
 
     def add_violation(self, key, what, payload, found_input):
+        if any(v["key"] == key for v in self.violations):
+            return
         self.violations.append(dict(key=key, what=what, payload=payload, found_input=found_input))
 
 
